@@ -20,24 +20,32 @@ func ruleCloseTable(c *Ctx, r *Report) {
 		return
 	}
 	r.Sites += len(fn.Blocks)
-	sig := findCalls(fn, nameIs("(*internal/closer.Closer).Close"))
-	notif := findCalls(fn, nameIs("(*dtls.Conn).notify"))
-	tr := findCalls(fn, func(n string) bool { return strings.HasPrefix(n, "iface:") && strings.HasSuffix(n, "PacketConn.Close") })
+	// close() together with its private helpers
+	unit := c.unitFuncs(fn)
+	inUnit := map[*ssa.Function]bool{}
+	var sig, notif, tr []*ssa.Call
+	for _, u := range unit {
+		inUnit[u] = true
+		sig = append(sig, findCalls(u, nameIs("(*internal/closer.Closer).Close"))...)
+		notif = append(notif, findCalls(u, nameIs("(*dtls.Conn).notify"))...)
+		tr = append(tr, findCalls(u, func(n string) bool { return strings.HasPrefix(n, "iface:") && strings.HasSuffix(n, "PacketConn.Close") })...)
+	}
+	follow := followSamePkg(fn)
 	if len(sig) != 1 || len(notif) != 1 || len(tr) != 1 {
 		r.Bad(rule, short(fn), c.pos(fn.Pos()), fmt.Sprintf("close() no longer has exactly one closed-signal, one close_notify and one transport close (%d/%d/%d)", len(sig), len(notif), len(tr)))
 		return
 	}
 	isClosedAtom := func(val bool) atomAssume { return atomAssume{mCall("(*dtls.Conn).isConnectionClosed"), vBool(val)} }
 	// first close: the signal precedes everything that can block
-	w := &Walk{Fn: fn, Assume: assumeAll(isClosedAtom(false))}
+	w := &Walk{Fn: fn, Follow: follow, FollowDeferring: true, Assume: assumeAll(isClosedAtom(false))}
 	w.Visit = func(in ssa.Instruction, _ Env) bool { return in != ssa.Instruction(sig[0]) }
 	w.FromEntry()
 	r.Check(!w.Reached[notif[0]] && !w.Reached[tr[0]], rule, short(fn)+":signal-first", c.ipos(sig[0]), "on the first close the closed signal is raised before close_notify is written and before the transport is closed", "close() writes close_notify (which needs the write lock) or closes the transport before raising the closed signal: a Write blocked in the transport is never cancelled and Close deadlocks on the write lock")
-	lf := c.lockFactsOf(fn)
-	r.Check(lf.before[sig[0]]["dtls.Conn.closeLock"] == 2, rule, short(fn)+":signal-locked", c.ipos(sig[0]), "closed signal raised under closeLock", "the closed signal is raised outside closeLock (two closers can both take the first-close path)")
-	r.Check(lf.before[notif[0]]["dtls.Conn.closeLock"] == 0 && lf.before[tr[0]]["dtls.Conn.closeLock"] == 0, rule, short(fn)+":io-unlocked", c.ipos(notif[0]), "no I/O under closeLock", "close() performs I/O while holding closeLock")
+	lfSig := c.lockFactsOf(sig[0].Parent())
+	r.Check(lfSig.before[sig[0]]["dtls.Conn.closeLock"] == 2, rule, short(fn)+":signal-locked", c.ipos(sig[0]), "closed signal raised under closeLock", "the closed signal is raised outside closeLock (two closers can both take the first-close path)")
+	r.Check(c.lockFactsOf(notif[0].Parent()).before[notif[0]]["dtls.Conn.closeLock"] == 0 && c.lockFactsOf(tr[0].Parent()).before[tr[0]]["dtls.Conn.closeLock"] == 0, rule, short(fn)+":io-unlocked", c.ipos(notif[0]), "no I/O under closeLock", "close() performs I/O while holding closeLock")
 	// second close: nothing happens
-	w2 := (&Walk{Fn: fn, Assume: assumeAll(isClosedAtom(true))}).FromEntry()
+	w2 := (&Walk{Fn: fn, Follow: follow, FollowDeferring: true, Assume: assumeAll(isClosedAtom(true))}).FromEntry()
 	r.Check(!w2.Reached[sig[0]] && !w2.Reached[notif[0]] && !w2.Reached[tr[0]], rule, short(fn)+":idempotent", c.pos(fn.Pos()), "a later close neither signals, nor notifies, nor closes the transport again", "a second Close repeats the closed signal, close_notify or the transport close")
 	// close_notify conditions
 	for _, cond := range []struct {
@@ -48,10 +56,10 @@ func ruleCloseTable(c *Ctx, r *Report) {
 		{"not established", atomAssume{mCall("(*dtls.Conn).isHandshakeCompletedSuccessfully"), vBool(false)}},
 		{"already closed by user", atomAssume{mLoad("dtls.Conn", "connectionClosedByUser"), vBool(true)}},
 	} {
-		w3 := (&Walk{Fn: fn, Assume: assumeAll(cond.as)}).FromEntry()
+		w3 := (&Walk{Fn: fn, Follow: follow, FollowDeferring: true, Assume: assumeAll(cond.as)}).FromEntry()
 		r.Check(!w3.Reached[notif[0]], rule, short(fn)+":close_notify:"+cond.name, c.ipos(notif[0]), "no close_notify when "+cond.name, "close_notify is sent although "+cond.name)
 	}
-	w4 := (&Walk{Fn: fn, Assume: assumeAll(isClosedAtom(false), atomAssume{mValue(fn.Params[1]), vBool(true)}, atomAssume{mCall("(*dtls.Conn).isHandshakeCompletedSuccessfully"), vBool(true)}, atomAssume{mLoad("dtls.Conn", "connectionClosedByUser"), vBool(false)})}).FromEntry()
+	w4 := (&Walk{Fn: fn, Follow: follow, FollowDeferring: true, Assume: assumeAll(isClosedAtom(false), atomAssume{mValue(fn.Params[1]), vBool(true)}, atomAssume{mCall("(*dtls.Conn).isHandshakeCompletedSuccessfully"), vBool(true)}, atomAssume{mLoad("dtls.Conn", "connectionClosedByUser"), vBool(false)})}).FromEntry()
 	r.Check(w4.Reached[notif[0]] && w4.Reached[tr[0]], rule, short(fn)+":close_notify:sent", c.ipos(notif[0]), "user close of an established, still open session sends close_notify and closes the transport", "a user Close of an established open session does not send close_notify")
 	// the alert is close_notify at warning level
 	al := c.enumConsts("pkg/protocol/alert", "Level")
@@ -63,7 +71,7 @@ func ruleCloseTable(c *Ctx, r *Report) {
 	for _, s := range c.CallsToName("(*internal/closer.Closer).Close") {
 		recv := s.Call.Common().Args[0]
 		if isFieldLoad(recv, "dtls.Conn", "closed") {
-			r.Check(s.Fn == fn, "single-closer", "Conn.closed<-"+short(s.Fn), c.ipos(s.Call), "raised only by close()", "the connection's closed signal is raised outside close()")
+			r.Check(inUnit[s.Fn], "single-closer", "Conn.closed<-"+short(s.Fn), c.ipos(s.Call), "raised only by close()", "the connection's closed signal is raised outside close()")
 		}
 	}
 }
